@@ -453,13 +453,51 @@ func bigByteLen(fr *frame, x *Term, max int) int {
 	if x.IsConst() {
 		return (x.C.BitLen() + 7) / 8
 	}
+	// narrow the range of feasible lengths with a binary search before the
+	// case split (a value known to be small needs a handful of queries, not
+	// one per possible length); replayed prefixes skip this
+	lo, hi := 0, max
+	if fr.p.pos >= len(fr.p.prefix) && fr.p.spec == 0 {
+		// largest feasible length: smallest n with x < 256^n implied
+		l, h := 0, max
+		for l < h {
+			mid := (l + h) / 2
+			if fr.p.feasible(ILe(IntC(pow256(mid)), x)) {
+				l = mid + 1
+			} else {
+				h = mid
+			}
+		}
+		hi = l
+		// smallest feasible length
+		l, h = 0, hi
+		for l < h {
+			mid := (l + h) / 2
+			var below *Term
+			if mid == 0 {
+				below = Eq(x, IntI(0))
+			} else {
+				below = ILt(x, IntC(pow256(mid)))
+			}
+			if fr.p.feasible(below) {
+				h = mid
+			} else {
+				l = mid + 1
+			}
+		}
+		lo = l
+	}
 	alts := make([]*Term, max+1)
 	for n := 0; n <= max; n++ {
-		hi := ILt(x, IntC(pow256(n)))
+		if n < lo || n > hi {
+			alts[n] = TFalse
+			continue
+		}
+		hiT := ILt(x, IntC(pow256(n)))
 		if n == 0 {
 			alts[n] = Eq(x, IntI(0))
 		} else {
-			alts[n] = And(ILe(IntC(pow256(n-1)), x), hi)
+			alts[n] = And(ILe(IntC(pow256(n-1)), x), hiT)
 		}
 	}
 	return fr.p.choose(alts, "big.Bytes length")
